@@ -330,6 +330,9 @@ ASSUMPTIONS = [
     'A-FLOAT: float division / ceil / int over the reals (exact below 2^53)',
     'A-PURE: user callables are deterministic and effect-free on dataset state',
     'A-PRIVATE: example evaluation never raises the private control signal _ItemsNotDefined',
+    'A-PEP479: example evaluation never raises StopIteration (python converts it to RuntimeError inside generators)',
+    'A-FRESH: a private sentinel object() is not the value of any example',
+    'A-EPOCH: the abstract view of an unordered dataset is the order of the epoch being frozen/iterated',
     'dataset lengths and contents do not change while a method runs (no external mutation of the examples container)',
     'lists are referenced through one local name (aliasing of mutable lists is outside the subset: Unsupported)',
 ]
